@@ -11,23 +11,22 @@ stochastic program.  Literal model of what the code does:
 * `future_tg.I` = indices of the grid points `>= start_future` (`futureStepsOf`); the assertion
   `start_future < timegrid.end` comes first; an EMPTY future (start_future strictly inside the last
   step) makes `future_tg.I[0]` raise `IndexError`.
-* `If` = boolean pandas Series with ONE ENTRY PER DISTINCT MAPPING LABEL, in order of first appearance:
-  "step of the first mapping row of that label lies in the future grid" (`slpMask`).
-  It is used in two different ways:
-  - by LABEL for the mapping (`mapping.loc[If, …]`, pandas aligns a boolean Series on the index):
-    `slpLabelFuture`;
-  - by POSITION for `l`, `u`, `c`, the cost samples and the columns of `A` (`arr[If]` of numpy):
-    entry `k` of the mask decides about VARIABLE `k`.  A mask of the wrong length (a variable without
-    mapping row, F-17a) raises `IndexError`.  The two readings coincide when the first rows of the
-    mapping list the variables `0,1,…,n-1` in this order.
-* new variables: `nS` copies of the selected variables appended in sample order; `l`, `u` tiled;
-  `c`: selected entries divided by `nS+1`, then per sample the selected entries of the sample cost
+* `fut_vars` = the distinct mapping labels, in order of first appearance, whose FIRST mapping row has a
+  step in the future grid (`slpFutVars`);  `If = zeros(m, bool); If[fut_vars] = True` — a boolean array
+  over ALL `m` variables (`slpMask`): a variable is "future" iff it has a mapping row and its first row
+  lies in the future; variables without mapping row belong to the present.  A future label `>= m`
+  would raise `IndexError` (cannot happen for portfolio problems).  `If` is used by position for `l`,
+  `u`, `c`, the cost samples and the columns of `A`, and by label membership for the mapping.
+* new variables: `nS` copies of the future variables appended in sample order; `l`, `u` tiled;
+  `c`: future entries divided by `nS+1`, then per sample the future entries of the sample cost
   vector divided by `nS+1`; `b`, `cType` repeated `nS+1` times; matrix: original rows, then per sample
-  `i` the rows with unselected columns kept and selected column `j` moved to
-  `n + i*n_f + rank j` (`slpEmbed`).
-* mapping: original rows get `slp_step_<I[0]>` = −1 where the label is future (else NaN), then per
-  sample the future rows are appended with the sample number; then `reset_index(drop=True)`:
-  afterwards the mapping index enumerates mapping ROWS (`var := row number`), not variables.
+  `i` the rows with present columns kept and future column `j` moved to
+  `m + i*n_f + rank_f j` (`slpEmbed`; `rank_f = cumsum(If) - 1`).
+* mapping: original rows keep their label and get `slp_step_<I[0]>` = −1 where the label is a future
+  variable (else NaN); then per sample `i` the rows of future variables are appended (all rows of
+  such a variable, in mapping order) with sample number `i` and label `m + i*n_f + rank_f[label]`,
+  i.e. the label of the copy of that variable.  (Before commit c776509 the mapping was renumbered by
+  rows with `reset_index`; finding F-17g.)
   `map_nodal_restr` is left as it is (it is NOT repeated although the N rows are).
 
 The cost samples are an input (they are produced by `Portfolio.create_cost_samples`, i.e. by the
@@ -61,15 +60,13 @@ def tile {α : Type} (xs : List α) : Nat → List α
 def futureStepsOf (pts : List Int) (startFuture : Int) : List Nat :=
   pts.zipIdx.filterMap fun (p, i) => if startFuture ≤ p then some i else none
 
-/-- the Series `If`: one entry per distinct mapping label in order of first appearance -/
-def slpMask (P : Problem) (F : List Nat) : List Bool :=
-  (firstRows P.mapping []).map fun m => F.contains m.step
+/-- `fut_vars`: distinct mapping labels (order of first appearance) whose first row lies in the future -/
+def slpFutVars (P : Problem) (F : List Nat) : List Nat :=
+  ((firstRows P.mapping []).filter fun m => F.contains m.step).map (·.var)
 
-/-- `If[label]`: the step of the first mapping row carrying that label lies in the future -/
-def slpLabelFuture (M : List MapRow) (F : List Nat) (v : Nat) : Bool :=
-  match M.find? (fun m => m.var == v) with
-  | some m => F.contains m.step
-  | none => false
+/-- the boolean array `If` over all variables: `If[fut_vars] = True` -/
+def slpMask (P : Problem) (F : List Nat) : List Bool :=
+  (List.range P.n).map fun j => (slpFutVars P F).contains j
 
 /-- index map from the variables of the original problem to those of the SLP for scenario `s`
     (`0` = the original future, `i+1` = sample `i`): unselected ↦ itself, selected `j` ↦ its copy -/
@@ -93,20 +90,24 @@ def sampleRows (mask : List Bool) (n : Nat) (rows : List Row) : Nat → Nat → 
   | _, 0 => []
   | i0, k + 1 => rows.map (Row.rename (slpEmbed mask n (i0 + 1))) ++ sampleRows mask n rows (i0 + 1) k
 
-/-- mapping rows with the value of the `slp_step_…` column, before `reset_index` -/
-def slpMappingRows (M : List MapRow) (F : List Nat) (nS : Nat) : List (MapRow × Option Int) :=
-  let fut := fun (m : MapRow) => slpLabelFuture M F m.var
-  let orig := M.map fun m => (m, if fut m then some (-1 : Int) else none)
-  let mapF := M.filter fut
-  orig ++ (List.range nS).flatMap fun (i : Nat) => mapF.map fun m => (m, some (Int.ofNat i))
+/-- the rows appended to the mapping: for sample `i = 0 … nS-1` the rows of future variables with the label
+    of the copy -/
+def slpCopyRows (mask : List Bool) (n : Nat) (mapF : List MapRow) (nS : Nat) : List (MapRow × Nat) :=
+  (List.range nS).flatMap fun i => mapF.map fun m => ({ m with var := slpEmbed mask n (i + 1) m.var }, i)
 
-/-- `reset_index(drop=True)`: the label of a mapping row becomes its row number -/
-def resetIndex (rows : List MapRow) : List MapRow :=
-  rows.zipIdx.map fun (m, k) => { m with var := k }
+/-- mapping rows of the SLP with the value of the `slp_step_…` column -/
+def slpMappingRows (P : Problem) (F : List Nat) (nS : Nat) : List (MapRow × Option Int) :=
+  let fut := fun (m : MapRow) => (slpFutVars P F).contains m.var
+  let orig := P.mapping.map fun m => (m, if fut m then some (-1 : Int) else none)
+  orig ++ (slpCopyRows (slpMask P F) P.n (P.mapping.filter fut) nS).map fun p => (p.1, some (Int.ofNat p.2))
+
+/-- the mapping of the SLP -/
+def slpMapping (P : Problem) (F : List Nat) (nS : Nat) : List MapRow :=
+  P.mapping ++ (slpCopyRows (slpMask P F) P.n (P.mapping.filter fun m => (slpFutVars P F).contains m.var) nS).map (·.1)
 
 /-- the `slp_step_<I[0]>` column of the SLP mapping, row by row -/
 def slpColumn (P : Problem) (F : List Nat) (nS : Nat) : List (Option Int) :=
-  (slpMappingRows P.mapping F nS).map (·.2)
+  (slpMappingRows P F nS).map (·.2)
 
 /-- `make_slp` on the problem, the future grid indices and the cost vectors of the samples -/
 def makeSlp (P : Problem) (futureSteps : List Nat) (costSamples : List (List Rat)) :
@@ -115,15 +116,15 @@ def makeSlp (P : Problem) (futureSteps : List Nat) (costSamples : List (List Rat
   let nS := costSamples.length
   let k : Rat := (nS : Rat) + 1
   if futureSteps.isEmpty then .error .index                       -- `future_tg.I[0]`
-  else if mask.length ≠ P.l.length ∨ mask.length ≠ P.u.length ∨ mask.length ≠ P.c.length then
-    .error .index                                                 -- `l[If]`, `u[If]`, `c[If]`
-  else if costSamples.any (fun cs => cs.length ≠ mask.length) then .error .index   -- `myc[If]`
+  else if (slpFutVars P futureSteps).any (fun v => decide (P.n ≤ v)) then .error .index   -- `If[fut_vars] = True`
+  else if P.l.length ≠ P.n ∨ P.u.length ≠ P.n then .error .index  -- `l[If]`, `u[If]`
+  else if costSamples.any (fun cs => cs.length ≠ P.n) then .error .index   -- `myc[If]`
   else .ok
     { c := scaleSel k mask P.c ++ sampleCosts k mask costSamples,
       l := P.l ++ tile (maskSel mask P.l) nS,
       u := P.u ++ tile (maskSel mask P.u) nS,
       rows := P.rows ++ sampleRows mask P.n P.rows 0 nS,
-      mapping := resetIndex ((slpMappingRows P.mapping futureSteps nS).map (·.1)),
+      mapping := slpMapping P futureSteps nS,
       nodal := P.nodal }
 
 /-- with the time arguments: the assertion `start_future < timegrid.end` comes first -/
